@@ -13,7 +13,8 @@ never an alarm.
 import re, os, json, sys
 
 class ExtractError(Exception):
-    pass
+    def __init__(self, msg, fn=None):
+        Exception.__init__(self, msg); self.fn = fn
 
 # --------------------------------------------------------------------------------------
 # lexical masking
@@ -243,10 +244,13 @@ def stmt_extent(m, i, block_close):
     return j
 
 class Extractor:
-    def __init__(self, repo, cfg, canary=False):
+    def __init__(self, repo, cfg, canary=False, skip_bodies=()):
         self.repo = repo
         self.cfg = cfg
         self.canary = canary
+        # functions whose bodies are left unverified on this run (fallback when a body uses a construct the verifier or
+        # the extractor cannot handle): contract kept, body external_body, no in-body insertions
+        self.skip_bodies = set(skip_bodies)
         self.files = {}
         self.rewrites = []     # human readable list of every non-insert rewrite
         self.dropped = []      # list of dropped things
@@ -343,7 +347,10 @@ class Extractor:
         """spec: dict with optional keys ret, requires, ensures, loops, entry, attrs, closures,
         panic_points, props, decreases, returns"""
         src, m, ed = self.file(rel)
-        spec = spec or {}
+        spec = dict(spec or {})
+        if key in self.skip_bodies and it.body_open is not None:
+            spec = dict((k, v) for k, v in spec.items() if k in ('ret', 'requires', 'ensures', 'props', 'decreases'))
+            spec['external_body'] = 'FALLBACK: body not verified on this run (unsupported construct or lost anchor)'
         ed.insert(it.head_start, '\x02%s\x03' % key, 'fnmark')
         ed.insert(it.end, '\x04', 'fnmark')
         self.fn_meta[key] = dict(file=rel, line=line_of(src, it.head_start), props=spec.get('props', []),
@@ -399,7 +406,7 @@ class Extractor:
             found = [mm for mm in re.finditer(r'\b(while|loop|for)\b', m[it.body_open:it.body_close])]
             for ordinal, lspec in loops.items():
                 if ordinal >= len(found):
-                    raise ExtractError('fn %s has no loop #%d' % (key, ordinal))
+                    raise ExtractError('fn %s has no loop #%d' % (key, ordinal), fn=key)
                 p = it.body_open + found[ordinal].start()
                 q = p
                 while m[q] != '{':
@@ -408,7 +415,7 @@ class Extractor:
                 if lspec.get('iter'):
                     im = re.search(r'\bin\b', m[p:q])
                     if found[ordinal].group(1) != 'for' or not im:
-                        raise ExtractError('loop #%d of fn %s is not a `for .. in ..` loop' % (ordinal, key))
+                        raise ExtractError('loop #%d of fn %s is not a `for .. in ..` loop' % (ordinal, key), fn=key)
                     ip = p + im.end()
                     ed.insert(ip, ' %s:' % lspec['iter'], 'loop-iter:' + key)
                     self.rewrites.append('%s:%d  fn %s: ghost iterator binder `%s:` inserted into `%s` (Verus syntax for naming the loop iterator in invariants)'
@@ -432,7 +439,7 @@ class Extractor:
         pps = spec.get('panic_points')
         found = [mm for mm in re.finditer(r'\b(assert|panic)!\s*\(', m[it.body_open:it.body_close])]
         if pps is not None and len(found) != len(pps):
-            raise ExtractError('fn %s has %d assert!/panic! sites, contract names %d' % (key, len(found), len(pps)))
+            raise ExtractError('fn %s has %d assert!/panic! sites, contract names %d' % (key, len(found), len(pps)), fn=key)
         for idx, pinv in enumerate(pps or []):
             p = it.body_open + found[idx].start()
             po = it.body_open + found[idx].end() - 1
@@ -482,11 +489,11 @@ class Extractor:
                 found.append((ps, pe, q))
             for cspec in cl_specs:
                 k = cspec['ordinal']
-                if k >= len(found): raise ExtractError('fn %s has no closure argument #%d' % (key, k))
+                if k >= len(found): raise ExtractError('fn %s has no closure argument #%d' % (key, k), fn=key)
                 ps, pe, q = found[k]
                 params = src[ps + 1:pe - 1]
                 body = src[pe:q].strip()
-                if body.startswith('{'): raise ExtractError('closure #%d of fn %s has a block body (unsupported)' % (k, key))
+                if body.startswith('{'): raise ExtractError('closure #%d of fn %s has a block body (unsupported)' % (k, key), fn=key)
                 ptxt = cspec.get('params', params)
                 cid = '%s.closure%d.ensures' % (key, k)
                 self.inserted.append(cid)
@@ -591,7 +598,7 @@ class Extractor:
                 key = '%s::%s' % (ispec.get('name', name), inh['fn'])
                 if ispec.get('trait_name'): self.inherits[key] = '%s::%s' % (ispec['trait_name'], inh['fn'])
                 # a private Edits over the trait file so that the default body can be rendered with its own contract
-                sub_ex = Extractor(self.repo, self.cfg, self.canary)
+                sub_ex = Extractor(self.repo, self.cfg, self.canary, self.skip_bodies)
                 sub_ex.files = {inh['file']: (tsrc, tm, Edits(inh['file'], tsrc))}
                 sub_ex.handle_attrs(inh['file'], t, inh['fn'])
                 sub_ex.handle_fn(inh['file'], t, key, inh.get('spec'))
@@ -618,11 +625,11 @@ class Extractor:
         out += [(t, o if o[0] == 'ins' else ('src', rel, o[1])) for (t, o) in ed.render(pos, it.end)]
         return out
 
-def build_unit(unit, repo, cfg, out_path, canary=False):
+def build_unit(unit, repo, cfg, out_path, canary=False, skip_bodies=()):
     """unit: dict(name, prelude, items, epilogue).  Writes out_path and out_path+'.map.json'.
     canary=<fn key> adds `ensures false` to that function, which must then FAIL (if it still verifies, its
     precondition is contradictory or an assumed contract it relies on excludes everything)."""
-    ex = Extractor(repo, cfg, canary)
+    ex = Extractor(repo, cfg, canary, skip_bodies)
     prelude = unit['prelude'](cfg) if callable(unit['prelude']) else unit['prelude']
     epilogue = unit.get('epilogue', '')
     if callable(epilogue): epilogue = epilogue(cfg)
@@ -668,7 +675,7 @@ def build_unit(unit, repo, cfg, out_path, canary=False):
     with open(out_path, 'w') as f:
         f.write('\n'.join(out_lines) + '\n')
     meta = dict(unit=unit['name'], cfg=cfg, linemap=linemap, rewrites=ex.rewrites, dropped=ex.dropped,
-                inserted=ex.inserted, fns=ex.fn_meta, inherits=ex.inherits)
+                inserted=ex.inserted, fns=ex.fn_meta, inherits=ex.inherits, skip_bodies=sorted(ex.skip_bodies))
     with open(out_path + '.map.json', 'w') as f:
         json.dump(meta, f, indent=1)
     return meta
